@@ -568,7 +568,6 @@ def run_bn(spec, ctx):
     detail = dict(q=query, ev=ev_named, virt=virt)
     model = bn_model(spec, states)
     ident = identity_states(card)
-    answers = []
 
     ve_ok = True
     for order in ORDERS:
